@@ -43,7 +43,7 @@ type lcWorld struct {
 	mu       sync.Mutex
 	cond     *sync.Cond
 	events   []lcEvent
-	conns    []*memConn // by connection number (order in which Accept handed them out)
+	conns    []*lcMemConn // by connection number (order in which Accept handed them out)
 	failed   []string   // harness-level problems (timeouts while waiting)
 	sdGID    uint64     // goroutine currently running Shutdown (its Close calls are Shutdown's)
 	cancelFn func()     // cancels the serve context
@@ -122,10 +122,10 @@ func (w *lcWorld) countLocked(code, c int) int {
 
 // ---------------------------------------------------------------------------------------------
 
-type memAddr struct{ id int }
+type lcMemAddr struct{ id int }
 
-func (a memAddr) Network() string { return "mem" }
-func (a memAddr) String() string  { return fmt.Sprintf("mem:%d", a.id) }
+func (a lcMemAddr) Network() string { return "mem" }
+func (a lcMemAddr) String() string  { return fmt.Sprintf("mem:%d", a.id) }
 
 // memErr is the error of a closed in-memory connection / listener; carries the connection number
 type memErr struct {
@@ -135,8 +135,8 @@ type memErr struct {
 
 func (e memErr) Error() string { return fmt.Sprintf("memconn #c=%d# %s", e.id, e.what) }
 
-// memConn is the server side of an in-memory connection; the client side are the methods cl*.
-type memConn struct {
+// lcMemConn is the server side of an in-memory connection; the client side are the methods cl*.
+type lcMemConn struct {
 	w  *lcWorld
 	id int
 
@@ -165,7 +165,7 @@ type memConn struct {
 	errsSeen       int            // OnErrorFunc calls attributed to this connection
 }
 
-func (c *memConn) Read(p []byte) (int, error) {
+func (c *lcMemConn) Read(p []byte) (int, error) {
 	w := c.w
 	w.mu.Lock()
 	c.readCalls++
@@ -219,7 +219,7 @@ func (c *memConn) Read(p []byte) (int, error) {
 	}
 }
 
-func (c *memConn) Write(p []byte) (int, error) {
+func (c *lcMemConn) Write(p []byte) (int, error) {
 	w := c.w
 	w.mu.Lock()
 	defer w.mu.Unlock()
@@ -258,7 +258,7 @@ func (c *memConn) Write(p []byte) (int, error) {
 	return len(p), nil
 }
 
-func (c *memConn) Close() error {
+func (c *lcMemConn) Close() error {
 	w := c.w
 	w.mu.Lock()
 	defer w.mu.Unlock()
@@ -279,8 +279,8 @@ func (c *memConn) Close() error {
 	return nil
 }
 
-func (c *memConn) LocalAddr() net.Addr { return memAddr{-1} }
-func (c *memConn) RemoteAddr() net.Addr {
+func (c *lcMemConn) LocalAddr() net.Addr { return lcMemAddr{-1} }
+func (c *lcMemConn) RemoteAddr() net.Addr {
 	c.w.mu.Lock()
 	c.addrCalls++
 	n := c.addrCalls
@@ -289,29 +289,29 @@ func (c *memConn) RemoteAddr() net.Addr {
 	if h != nil {
 		h(n)
 	}
-	return memAddr{c.id}
+	return lcMemAddr{c.id}
 }
-func (c *memConn) SetDeadline(t time.Time) error { return c.SetReadDeadline(t) }
-func (c *memConn) SetReadDeadline(t time.Time) error {
+func (c *lcMemConn) SetDeadline(t time.Time) error { return c.SetReadDeadline(t) }
+func (c *lcMemConn) SetReadDeadline(t time.Time) error {
 	c.w.mu.Lock()
 	c.readDeadline = t
 	c.w.mu.Unlock()
 	return nil
 }
-func (c *memConn) SetWriteDeadline(t time.Time) error { return nil }
+func (c *lcMemConn) SetWriteDeadline(t time.Time) error { return nil }
 
 var errEOF = io.EOF
 
 // ---- client side ----
 
-func (c *memConn) clSend(p []byte) {
+func (c *lcMemConn) clSend(p []byte) {
 	c.w.mu.Lock()
 	c.toServer = append(c.toServer, append([]byte(nil), p...))
 	c.w.cond.Broadcast()
 	c.w.mu.Unlock()
 }
 
-func (c *memConn) clClose() {
+func (c *lcMemConn) clClose() {
 	c.w.mu.Lock()
 	c.clientClosed = true
 	c.w.cond.Broadcast()
@@ -319,7 +319,7 @@ func (c *memConn) clClose() {
 }
 
 // clTakeFrames consumes complete Modbus TCP frames from what the server wrote (caller holds w.mu)
-func (c *memConn) clTakeFramesLocked() [][]byte {
+func (c *lcMemConn) clTakeFramesLocked() [][]byte {
 	var fs [][]byte
 	for len(c.toClient) >= 6 {
 		n := 6 + int(c.toClient[4])<<8 + int(c.toClient[5])
@@ -338,7 +338,7 @@ func (c *memConn) clTakeFramesLocked() [][]byte {
 type memListener struct {
 	w *lcWorld
 	// guarded by w.mu
-	pending   []*memConn
+	pending   []*lcMemConn
 	closed    bool
 	accepting int // number of goroutines blocked in Accept
 	accepts   int // number of Accept calls so far
@@ -385,13 +385,13 @@ func (l *memListener) Close() error {
 	return nil
 }
 
-func (l *memListener) Addr() net.Addr { return memAddr{-1} }
+func (l *memListener) Addr() net.Addr { return lcMemAddr{-1} }
 
 // dial queues a connection and waits until Accept has handed it out (-> its number) or the listener
 // is closed (-> refused)
-func (l *memListener) dial(prep func(c *memConn)) (*memConn, bool) {
+func (l *memListener) dial(prep func(c *lcMemConn)) (*lcMemConn, bool) {
 	w := l.w
-	c := &memConn{w: w, id: -1}
+	c := &lcMemConn{w: w, id: -1}
 	if prep != nil {
 		prep(c)
 	}
